@@ -17,6 +17,7 @@ Lens == [i \in 1..Len(Ev.recs) |-> Ev.recs[i] - oh]
 
 WriteStep ==
   LET need == Len(Chunks(Ev.w)) IN
+  /\ Mark(Get(Ev, "stuck", FALSE), "I_RoundTrip", l)
   /\ Mark(Ev.panic # "", "I_RoundTrip", l)
   /\ Mark(\E i \in 1..Len(Ev.recs) : Ev.recs[i] > pl + oh \/ Ev.recs[i] < 0, "I_RecordLimit", l)
   /\ IF need > outLeft
@@ -50,6 +51,7 @@ ReadStep2 ==
             ELSE off' = off /\ ReadG(Ev.buf, 0)
 
 ReadStep ==
+  /\ Mark(Get(Ev, "stuck", FALSE), "I_RoundTrip", l)   \* Read hung / span on empty reads: written bytes never delivered
   /\ Mark(Ev.n > Ev.buf \/ Ev.n < 0, "I_ReadContract", l)
   /\ Mark(Ev.panic # "", "I_NoPanic", l)
   /\ ReadStep2
